@@ -90,12 +90,14 @@ theorem decPrefixed_verbatim (mult maxLen : Nat) (b e r : Bytes)
 def Field.proved : Field → Bool
   | .features => false
   | .addrs => false
+  | .scids => false
   | _ => true
 
 /-- field kinds whose re-encoding is the consumed bytes themselves. -/
 def Field.verbatim : Field → Bool
   | .features => false
   | .addrs => false
+  | .scids => false
   | .bool => false
   | _ => true
 
@@ -105,6 +107,7 @@ theorem decField_fix (f : Field) (hp : f.proved = true) (b e r : Bytes)
   cases f with
   | features => simp [Field.proved] at hp
   | addrs => simp [Field.proved] at hp
+  | scids => simp [Field.proved] at hp
   | alias =>
     simp only [decField] at h
     split at h
@@ -162,6 +165,7 @@ theorem decField_verbatim (f : Field) (hv : f.verbatim = true) (b e r : Bytes)
   cases f with
   | features => simp [Field.verbatim] at hv
   | addrs => simp [Field.verbatim] at hv
+  | scids => simp [Field.verbatim] at hv
   | bool => simp [Field.verbatim] at hv
   | fixed n =>
     simp only [decField] at h
@@ -200,6 +204,7 @@ theorem decField_suffix (f : Field) (hp : f.proved = true) (b e r : Bytes)
       · cases h; rfl
     | features => simp [Field.proved] at hp
     | addrs => simp [Field.proved] at hp
+    | scids => simp [Field.proved] at hp
     | fixed n => simp [Field.verbatim] at hv
     | varU16 => simp [Field.verbatim] at hv
     | pubkey => simp [Field.verbatim] at hv
